@@ -232,7 +232,7 @@ pub proof fn lemma_link_expected(max: int, t: Transfer, p: Seq<u8>)
 
 //@@ fn file=fe2o3-amqp/src/link/sender_link.rs name=send_transfer
 //@@ param writer : &mut ChanSender<LinkFrame>
-//@@ subst `|_v0|` => `|_v0: ChanSendError|` rule=R5
+//@@ subst `|_v0|` => `|_v0: ChanSendError|` rule=optional-R5
 //@@ spec
     ensures
         r is Ok ==> final(writer).sent@ == old(writer).sent@.push(LinkFrame::Transfer { input_handle, performative: transfer, payload }),   // [C01.link.send-frame] the frame queued is the performative and payload given
